@@ -6,6 +6,7 @@
 //!     "cwd": "dir" | null, "env": {"NAME": "value" | null, ...},
 //!     (args empty => bare bindgen::builder(), with "depfile": [module, path])
 //!     "headers": [input headers added with Builder::header, in order], "clang_args": [...],
+//!     "log": hook log (NDJSON) of this job | null, "detail": 0|1,
 //!     "header_contents": [["name", "text"], ...], "cargo": true|false,
 //!     "write": true|false (also format + write the bindings with the default formatter) } ] }
 //! stdout:
@@ -58,6 +59,9 @@ fn run_job(job: &Value) -> Value {
     // markers for the getenv interposer (lib/native/getenv_shim.c): what is consulted between them
     // is consulted by the code under test, not by this driver
     let _ = std::env::var(format!("VERIF_MARK_{}", job["id"].as_str().unwrap_or("")));
+    let log = job["log"].as_str().map(std::path::PathBuf::from);
+    bindgen::verif::set_thread_log(log.as_deref());
+    bindgen::verif::set_thread_detail(job["detail"].as_u64().unwrap_or(0) as u8);
     let events = Arc::new(Mutex::new(vec![]));
     let rec = Recorder(events.clone());
     let cargo = job["cargo"].as_bool().unwrap_or(true);
@@ -130,6 +134,7 @@ fn run_job(job: &Value) -> Value {
             ("panic".to_string(), format!("{} @ {}", crate::run::panic_msg(p), loc))
         }
     };
+    bindgen::verif::set_thread_log(None);
     let _ = std::env::var("VERIF_ENDMARK");
     for (k, v) in saved {
         match v {
